@@ -1,5 +1,6 @@
 import TpmProofs.PumpFacts
 import TpmProofs.Props.MsgWF
+import TpmProofs.TruncPump
 /-!
 # C10 — decoding is incremental: one byte of look-ahead, prefix-stable, source-agnostic
 -/
@@ -50,5 +51,19 @@ theorem c10_source {σ τ : Type} (abort : Bool) (tb : MsgTables) (top : Top)
     (h : drain n1 f1 s1 = drain n2 f2 s2) :
     marshalSrc abort tb top n1 f1 s1 = marshalSrc abort tb top n2 f2 s2 := by
   unfold marshalSrc; rw [h]
+
+/-- **prefix stability**, every input: the events shown while decoding the first `k` bytes of `x` are a prefix of the
+events shown while decoding `x` — a consumer that has seen the events for a prefix never has to retract one when
+more bytes arrive (pull counts aside; everything but the stream loop, which looks at the end of the input) -/
+theorem c10_prefix_stable (tb : MsgTables) (top : Top) (hs : top.isStream = false) (x : List Byte) (k : Nat) :
+    (marshalRun true tb top (x.take k)).evs <+: (marshalRun true tb top x).evs :=
+  prefix_stable tb top hs x k
+
+/-- … and they are exactly the events of the fields complete within the prefix -/
+theorem c10_prefix_exact (tb : MsgTables) (top : Top) (hs : top.isStream = false) (x : List Byte) (k : Nat)
+    (hk : k < consumed tb top x) :
+    (marshalRun true tb top (x.take k)).evs = ((traceOf tb top x).filter fun ke => ke.1 ≤ k).map (·.2) := by
+  rw [truncated_run tb top hs x k hk]
+  simp [Run.evs, shown, List.map_map, Function.comp_def]
 
 end C10
